@@ -10,6 +10,8 @@ pub enum Script {
     FailAtCall { call: usize, kind: u8 },
     /// accept exactly `offset` bytes, then fail
     FailAtByte { offset: usize, kind: u8 },
+    /// fail the j-th write call once (a hard error, not Interrupted); a sink that would accept data again afterwards
+    FailOnceAtCall { call: usize, kind: u8 },
     /// per write call: 0 = accept all, 1..=200 = accept at most that many bytes (short write), 255 = Interrupted.
     /// After the pattern is exhausted everything is accepted; `terminal` optionally fails at a byte offset.
     Schedule { pattern: Vec<u8>, terminal: Option<(usize, u8)> },
@@ -37,6 +39,8 @@ pub struct FaultState {
     /// write calls seen per API call index
     pub calls_by_api: Vec<(usize, usize)>,
     pub flushes: usize,
+    /// write calls that reached the sink after it had returned its terminal failure
+    pub writes_after_failure: usize,
 }
 
 #[derive(Clone)]
@@ -65,6 +69,9 @@ impl Write for FaultSink {
         s.write_calls += 1;
         let api = s.current_call;
         s.calls_by_api.push((api, buf.len()));
+        if s.terminal_hit {
+            s.writes_after_failure += 1;
+        }
         let fail = |s: &mut FaultState, kind: u8| -> io::Result<usize> {
             s.terminal_hit = true;
             if kind == 6 {
@@ -76,6 +83,13 @@ impl Write for FaultSink {
         match &self.script {
             Script::FailAtCall { call, kind } => {
                 if call_no >= *call {
+                    return fail(&mut s, *kind);
+                }
+                s.accepted.extend_from_slice(buf);
+                Ok(buf.len())
+            }
+            Script::FailOnceAtCall { call, kind } => {
+                if call_no == *call {
                     return fail(&mut s, *kind);
                 }
                 s.accepted.extend_from_slice(buf);
